@@ -141,7 +141,32 @@ class Gen:
     def extra(self, depth, in_loop):
         """rarer constructs"""
         ind = lambda lines: ["    " + l for l in lines]
-        k = R.randrange(19)
+        k = R.randrange(25)
+        if k == 19:      # attribute of an object: store, then read
+            return ["o.n = %s" % self.iexpr(), "emit(o.n + %s)" % self.iexpr()] if R.random() < 0.5 else ["emit(o.n)", "o.n %s= %s" % (R.choice(["+", "-", "*"]), self.iexpr())]
+        if k == 20:      # dict built in a loop, then read
+            x, v = self.newvar(), self.newvar()
+            saved = list(self.ints)
+            self.ints.append(x)
+            e = self.iexpr(1)
+            self.ints = saved
+            self.ints.append(v)
+            return ["r = {}", "for %s in xs:" % x] + ind(["r[%s] = %s" % (x, e)]) + ["%s = len(r) + sum(r.values())" % v]
+        if k == 21:      # extend with a generator
+            x = self.newvar()
+            saved = list(self.ints)
+            self.ints.append(x)
+            e = self.iexpr(1)
+            c = (" if %s" % self.cond(1)) if R.random() < 0.5 else ""
+            self.ints = saved
+            return ["ys.extend(%s for %s in xs%s)" % (e, x, c)]
+        if k == 22 and depth < 2:      # context manager that reports entering and leaving
+            return ["with cm(%s):" % self.const()] + ind(self.block(depth + 1, in_loop, R.randint(1, 2)))
+        if k == 23 and depth < 2:      # try / finally
+            return ["try:"] + ind(self.block(depth + 1, in_loop, R.randint(1, 2))) + ["finally:"] + ind(["emit(%s)" % self.iexpr()])
+        if k == 24:      # string iteration
+            c_ = self.newvar()
+            return ["for %s in 'ab':" % c_] + ind(["emit(%s + str(%s))" % (c_, self.iexpr())])
         if k in (17, 18) and depth < 2:    # case analysis on an integer (len / count)
             subj = R.choice(["len(xs)", "xs.count(%s)" % self.const(), "len(d)"])
             t1 = "%s %s %s" % (subj, R.choice(["==", "<", ">", "<=", ">=", "!="]), R.choice(["0", "1", "2"]))
@@ -248,16 +273,34 @@ class Gen:
 
     def function(self):
         body = ["ys = []"] + self.block(0, False, R.randint(2, 5)) + ["return (%s, ys)" % self.iexpr()]
-        return "def f(a, b, xs, d):\n" + "\n".join("    " + l for l in body) + "\n"
+        src = "def f(a, b, xs, d, o=None):\n" + "\n".join("    " + l for l in body) + "\n"
+        if R.random() < 0.15:
+            import re
+            src = re.sub(r"^(\s*)emit\((.*)\)$", r"\1yield \2", src, flags=re.M)   # a generator: the effects are what it yields
+        return src
 
 
 # ------------------------------------------------------------------------------------------------------------ rewrites (behaviour preserving)
 class DeMorgan(ast.NodeTransformer):
-    def visit_BoolOp(self, node):
+    """De Morgan on the tests of if / while / conditional expressions (as a value, `a or b` is not `not (not a and not b)`)"""
+    def _dual(self, t):
+        if isinstance(t, ast.BoolOp) and R.random() < 0.7:
+            dual = ast.Or() if isinstance(t.op, ast.And) else ast.And()
+            return ast.UnaryOp(op=ast.Not(), operand=ast.BoolOp(op=dual, values=[ast.UnaryOp(op=ast.Not(), operand=self._dual(v)) for v in t.values]))
+        if isinstance(t, ast.UnaryOp) and isinstance(t.op, ast.Not):
+            return ast.UnaryOp(op=ast.Not(), operand=self._dual(t.operand))
+        return t
+
+    def visit_If(self, node):
         self.generic_visit(node)
-        if R.random() < 0.7:
-            dual = ast.Or() if isinstance(node.op, ast.And) else ast.And()
-            return ast.UnaryOp(op=ast.Not(), operand=ast.BoolOp(op=dual, values=[ast.UnaryOp(op=ast.Not(), operand=v) for v in node.values]))
+        node.test = self._dual(node.test)
+        return node
+
+    visit_While = visit_If
+
+    def visit_IfExp(self, node):
+        self.generic_visit(node)
+        node.test = self._dual(node.test)
         return node
 
 
@@ -312,7 +355,7 @@ class ExtractHelper(ast.NodeTransformer):
     def visit_Expr(self, node):
         if isinstance(node.value, ast.Call) and isinstance(node.value.func, ast.Name) and node.value.func.id == "emit" and R.random() < 0.6:
             e = node.value.args[0]
-            names = sorted({x.id for x in ast.walk(e) if isinstance(x, ast.Name) and x.id not in ("min", "max", "abs", "len", "pf", "d", "xs", "sum", "chk", "pair", "any", "all", "zip") and not x.id.startswith("cl")})
+            names = sorted({x.id for x in ast.walk(e) if isinstance(x, ast.Name) and x.id not in _VOCAB and not x.id.startswith("cl")})
             ExtractHelper.k += 1
             hn = "_helper%d" % ExtractHelper.k
             fd = ast.parse("def %s(%s):\n    emit(0)\n" % (hn, ", ".join(names))).body[0]
@@ -348,7 +391,7 @@ class ToFString(ast.NodeTransformer):
         return node
 
 
-_VOCAB = ("min", "max", "abs", "len", "pf", "d", "xs", "sum", "chk", "pair", "any", "all", "zip", "emit", "ys", "zs", "acc")
+_VOCAB = ("min", "max", "abs", "len", "pf", "d", "xs", "sum", "chk", "pair", "any", "all", "zip", "emit", "ys", "zs", "acc", "o", "r", "cm", "str", "sorted")
 
 
 class ExtractValueHelper(ast.NodeTransformer):
@@ -541,16 +584,29 @@ def _behaviour(src):
     out = []
     for a, b, xs, d in GRID:
         trace = []
-        env = {"emit": trace.append, "pf": lambda v: v * v - 1, "chk": _chk, "pair": _pair}
+        import contextlib
+        import types
+
+        @contextlib.contextmanager
+        def _cm(tag, trace=trace):
+            trace.append(("enter", tag))
+            try:
+                yield tag
+            finally:
+                trace.append(("exit", tag))
+        obj = types.SimpleNamespace(n=a + 1)
+        env = {"emit": trace.append, "pf": lambda v: v * v - 1, "chk": _chk, "pair": _pair, "cm": _cm}
         try:
             env["Fr"] = _Fr
             exec(src.replace("0.5", "Fr(1, 2)"), env)   # exact arithmetic: the normaliser reasons over the reals
             xs2, d2 = list(xs), dict(d)
             try:
-                r = env["f"](a, b, xs2, d2)
-                out.append(("ok", repr(r), tuple(trace), tuple(xs2), tuple(sorted(d2.items()))))
+                r = env["f"](a, b, xs2, d2, obj)
+                if isinstance(r, types.GeneratorType):
+                    r = list(r)
+                out.append(("ok", repr(r), tuple(trace), tuple(xs2), tuple(sorted(d2.items())), obj.n))
             except Exception as e:   # noqa
-                out.append(("exc", type(e).__name__, tuple(trace), tuple(xs2), tuple(sorted(d2.items()))))
+                out.append(("exc", type(e).__name__, tuple(trace), tuple(xs2), tuple(sorted(d2.items())), obj.n))
         except Exception as e:   # noqa
             return ("compile-error", type(e).__name__)
     return tuple(out)
@@ -632,6 +688,8 @@ def main():
             beh2 = behaviour(src2)
             if beh2 != base_beh:
                 stats["rewrite_bug"] += 1    # the fuzzer's own rewrite changed behaviour (e.g. a name use-before-def): not the normaliser's business
+                if os.environ.get("NF_FUZZ_SHOW_REWRITE_BUGS"):
+                    print("REWRITE-BUG %s\n%s\n--\n%s\n" % (rnames, src, src2))
                 continue
             stats["rewrites"] += 1
             try:
